@@ -175,7 +175,8 @@ pub trait Lib: Send + Sync {
     fn dudect_keygen_sign(&self, rng: &mut TestRng, m: &[u8]) -> LibResult<Vec<u8>>;
 
     /// C16: build a key of the given kind/provenance from `xi`, drop it in place, observe its storage.
-    fn drop_probe(&self, private: bool, prov: Provenance, xi: &[u8; 32], structured: Option<&[u8]>) -> Option<DropProbe>;
+    /// `misalign`: place the object at an address that is a multiple of its alignment but not of twice its alignment.
+    fn drop_probe(&self, private: bool, prov: Provenance, xi: &[u8; 32], structured: Option<&[u8]>, misalign: bool) -> Option<DropProbe>;
 
     // ---- hooks (parameter-set generic kernels) ----
     fn hk_sig_decode(&self, sig: &[u8]) -> LibResult<(Vec<u8>, Vec<P32>, Vec<P32>)>;
@@ -221,13 +222,26 @@ fn polys<const N: usize>(v: &[P32]) -> [P32; N] {
     core::array::from_fn(|i| v[i])
 }
 
-fn observe<T>(slot: &mut core::mem::ManuallyDrop<T>) -> DropProbe {
+/// Move `key` into storage owned by the harness at a chosen alignment, drop it in place, read the storage.
+fn observe<T>(key: T, misalign: bool) -> DropProbe {
     let size = core::mem::size_of::<T>();
-    let ptr = (&mut **slot as *mut T).cast::<u8>();
+    let align = core::mem::align_of::<T>().max(8);
+    assert!(align <= 64, "harness: unexpected alignment");
+    let mut store: Vec<u64> = vec![0u64; size / 8 + 32];
+    let base = store.as_mut_ptr() as usize;
+    let mut addr = (base + 127) & !127; // a multiple of 128 ...
+    if misalign {
+        addr += align; // ... or an odd multiple of the type's own alignment
+    }
+    assert!(addr + size <= base + store.len() * 8);
+    let tptr = addr as *mut T;
+    let ptr = tptr.cast::<u8>();
+    unsafe { tptr.write(key) };
     let read = |p: *mut u8| -> Vec<u8> { (0..size).map(|i| unsafe { core::ptr::read_volatile(p.add(i)) }).collect() };
     let before = read(ptr);
-    unsafe { core::mem::ManuallyDrop::drop(slot) };
+    unsafe { core::ptr::drop_in_place(tptr) };
     let after = read(ptr);
+    drop(store);
     let blocks = size.div_ceil(256);
     DropProbe {
         size,
@@ -321,8 +335,7 @@ macro_rules! lib_impl {
                 $m::dudect_keygen_sign_with_rng(rng, m).map(|s| s.to_vec())
             }
 
-            fn drop_probe(&self, private: bool, prov: Provenance, xi: &[u8; 32], structured: Option<&[u8]>) -> Option<DropProbe> {
-                use core::mem::ManuallyDrop;
+            fn drop_probe(&self, private: bool, prov: Provenance, xi: &[u8; 32], structured: Option<&[u8]>, misalign: bool) -> Option<DropProbe> {
                 let (pk, sk) = $m::KG::keygen_from_seed(xi);
                 if private {
                     let key: $m::PrivateKey = match (prov, structured) {
@@ -332,8 +345,7 @@ macro_rules! lib_impl {
                         (Provenance::Cloned, _) => sk.clone(),
                         (Provenance::Derived, _) => return None,
                     };
-                    let mut slot = Box::new(ManuallyDrop::new(key));
-                    Some(observe(&mut *slot))
+                    Some(observe(key, misalign))
                 } else {
                     let key: $m::PublicKey = match (prov, structured) {
                         (Provenance::Deserialised, Some(b)) => $m::PublicKey::try_from_bytes(arr(b)).ok()?,
@@ -342,8 +354,7 @@ macro_rules! lib_impl {
                         (Provenance::Cloned, _) => pk.clone(),
                         (Provenance::Derived, _) => sk.get_public_key(),
                     };
-                    let mut slot = Box::new(ManuallyDrop::new(key));
-                    Some(observe(&mut *slot))
+                    Some(observe(key, misalign))
                 }
             }
 
